@@ -110,6 +110,7 @@ func cmdCheck(args []string) {
 		cache = "" // thorough re-solves every obligation
 	}
 	solver := NewSolver(filepath.Join(*out, ".work", *prop), cache, timeout, seed)
+	solver.RetryFactor = 4 // quick: 20 s, then 80 s for what is left; thorough: 90 s, then 360 s
 	defer os.RemoveAll(filepath.Join(*out, ".work", *prop))
 	rr := verify(c, func(ct *Contract) bool { return contractMentions(ct, *prop) },
 		func(name string, tags []string) bool { return hasTag(tags, *prop) }, solver, false)
